@@ -1,6 +1,8 @@
-// VU-verdict (C05, C06, C07): the accept/reject step of the five signature verifiers of ops/signature.rs — from
+// VU-verdict (C05, C06, C07, C08): the accept/reject step of the five signature verifiers of ops/signature.rs — from
 // `let expected_signature = …;` to the end of each function (V4 header: up to the streaming branch) — extracted as
-// statement ranges and wrapped in functions over their free variables. Rewrites: R-trace.
+// statement ranges and wrapped in functions over their free variables; and the rest of v4_check_header_auth from `if is_stream {`
+// on (the chunk decoder is installed over the request body for every declared length; attribution). Rewrites: R-trace, R-closure,
+// subst `self.req_body` => `&mut self.req_body` (the context's `&mut Body` field is read as an owned field).
 #![allow(dead_code, unused)]
 use vstd::prelude::*;
 
@@ -24,7 +26,7 @@ pub assume_specification<'a>[ <String as From<&'a str>>::from ](s: &str) -> (r: 
 
 pub mod error {
     use vstd::prelude::*;
-    pub enum S3ErrorCode { SignatureDoesNotMatch, AccessDenied, Other }
+    pub enum S3ErrorCode { SignatureDoesNotMatch, AccessDenied, MissingContentLength, Other }
     pub struct S3Error { pub code: S3ErrorCode }
     impl S3Error { pub fn new(code: S3ErrorCode) -> (r: S3Error) ensures r.code == code { S3Error { code } } }
     pub type S3Result<T = (), E = S3Error> = core::result::Result<T, E>;
@@ -32,6 +34,7 @@ pub mod error {
 use crate::error::*;
 
 pub struct SecretKey { pub o: u64 }
+impl Clone for SecretKey { fn clone(&self) -> (r: Self) ensures r == *self { SecretKey { o: self.o } } }
 pub struct Multipart { pub o: u64 }
 //@@ extract T_CredentialsExt file=crates/s3s/src/ops/signature.rs item="struct CredentialsExt" rewrites=attr
 
@@ -102,6 +105,73 @@ pub fn v2_presigned_verdict(signature: String, presigned_url: &Presented<'_>, ac
 //@@ canary v2_presigned_verdict
 {
 //@@ extract v2_presigned_tail file=crates/s3s/src/ops/signature.rs item="impl SignatureContext<'_>/fn v2_check_presigned_url" from="let expected_signature = presigned_url.signature;" rewrites=trace
+}
+
+// ---- the rest of v4_check_header_auth: installing the chunk decoder, attribution --------------------------------------------
+pub assume_specification<T: Default>[ core::mem::take ](x: &mut T) -> (r: T)
+    ensures r == *old(x);
+pub assume_specification[ <Box<str> as From<String>>::from ](s: String) -> (r: Box<str>)
+    ensures r@ == s@;
+pub assume_specification<'a>[ <Box<str> as From<&'a str>>::from ](s: &str) -> (r: Box<str>)
+    ensures r@ == s@;
+pub struct AmzDate { pub o: u64 }
+/// a request body: an opaque source, or the chunk decoder over one (what the backend then reads)
+pub struct Body { pub o: u64 }
+impl Default for Body { #[verifier::external_body] fn default() -> (r: Body) { unimplemented!() } }
+/// everything the chunk decoder is built from
+pub ghost struct ChunkParams { pub source: Body, pub seed_signature: Seq<char>, pub date: AmzDate, pub region: Seq<char>, pub service: Seq<char>, pub key: SecretKey, pub declared_length: usize }
+pub uninterp spec fn decoder_params(b: Body) -> Option<ChunkParams>;
+pub struct DynByteStream { pub o: u64 }
+pub uninterp spec fn stream_params(s: DynByteStream) -> ChunkParams;
+pub struct AwsChunkedStream { pub o: u64 }
+impl AwsChunkedStream {
+    pub uninterp spec fn params(&self) -> ChunkParams;
+    /// http::AwsChunkedStream::new (its generator is under contract in VU-chunk)
+    #[verifier::external_body]
+    pub fn new(body: Body, seed_signature: Box<str>, amz_date: AmzDate, region: Box<str>, service: Box<str>, secret_key: SecretKey, decoded_content_length: usize) -> (r: Self)
+        ensures r.params() == (ChunkParams { source: body, seed_signature: seed_signature@, date: amz_date, region: region@, service: service@, key: secret_key, declared_length: decoded_content_length })
+    { unimplemented!() }
+    #[verifier::external_body]
+    pub fn into_byte_stream(self) -> (r: DynByteStream)
+        ensures stream_params(r) == self.params()
+    { unimplemented!() }
+}
+impl From<DynByteStream> for Body {
+    #[verifier::external_body]
+    fn from(s: DynByteStream) -> (r: Body) { unimplemented!() }
+}
+impl vstd::std_specs::convert::FromSpecImpl<DynByteStream> for Body {
+    open spec fn obeys_from_spec() -> bool { true }
+    uninterp spec fn from_spec(s: DynByteStream) -> Body;
+}
+#[verifier::external_body]
+pub proof fn axiom_body_from_stream()
+    ensures forall|s: DynByteStream| decoder_params(#[trigger] <Body as vstd::std_specs::convert::FromSpec<DynByteStream>>::from_spec(s)) == Some(stream_params(s))
+{}
+pub struct CredentialV4<'a> { pub aws_region: &'a str, pub aws_service: &'a str }
+pub struct AuthorizationV4<'a> { pub credential: CredentialV4<'a>, pub signature: &'a str }
+/// the fields of SignatureContext the block touches; `req_body` is `&mut Body` in the real struct (read as an owned field here)
+pub struct HeaderCtx { pub decoded_content_length: Option<usize>, pub req_body: Body, pub transformed_body: Option<Body> }
+impl HeaderCtx {
+    pub fn v4_header_install(&mut self, is_stream: bool, signature: String, amz_date: AmzDate, authorization: &AuthorizationV4<'_>, access_key: &str, secret_key: SecretKey, region: &str, service: &str) -> (ret: S3Result<CredentialsExt>)
+        ensures
+            //# C08,C05:verdict.v4_header.a_streaming_payload_is_always_read_through_the_chunk_decoder_seeded_with_the_verified_signature
+            (is_stream && ret is Ok) ==> (old(self).decoded_content_length is Some && final(self).transformed_body is Some
+                && decoder_params(final(self).transformed_body->Some_0) == Some(ChunkParams { source: old(self).req_body, seed_signature: signature@, date: amz_date,
+                    region: authorization.credential.aws_region@, service: authorization.credential.aws_service@, key: secret_key,
+                    declared_length: old(self).decoded_content_length->Some_0 })),
+            //# C08:verdict.v4_header.a_streaming_payload_without_a_declared_length_is_refused
+            (is_stream && old(self).decoded_content_length is None) ==> (ret matches Err(e) && e.code is MissingContentLength),
+            //# C08,C05:verdict.v4_header.any_other_payload_is_left_as_it_is
+            !is_stream ==> (final(self).transformed_body == old(self).transformed_body && final(self).req_body == old(self).req_body),
+            //# C05,C07:verdict.v4_header.attributed_to_the_claimed_key
+            ret matches Ok(c) ==> (c.access_key@ == access_key@ && c.secret_key == secret_key
+                && c.region is Some && c.region->Some_0@ == region@ && c.service is Some && c.service->Some_0@ == service@),
+            (!is_stream || old(self).decoded_content_length is Some) ==> ret is Ok,
+            //#-
+    {
+//@@ extract v4_header_stream file=crates/s3s/src/ops/signature.rs item="impl SignatureContext<'_>/fn v4_check_header_auth" from="if is_stream {" from_n=2 rewrites="trace,closure:1:S3Error,subst:mem::take(self.req_body)=>core::mem::take(&mut self.req_body)"
+    }
 }
 
 } // verus!
